@@ -60,6 +60,9 @@ def run(ctx, variants=(("verif", "c04"), ("verif,unsafe", "c04u"))):
     orc, olog = ctx.oracle_build("oracle_c04")
     if orc is None:
         broken.append({"kind": "obligation", "name": "oracle_c04 could not be built", "detail": olog[-1500:]})
+    orcleg, oleglog = ctx.oracle_build("oracle_c04leg")
+    if orcleg is None:
+        broken.append({"kind": "obligation", "name": "oracle_c04leg (needs Gen/Legacy.lean) could not be built", "detail": oleglog[-1500:]})
     for tags, name in variants:
         if orc is None:
             break
@@ -72,6 +75,17 @@ def run(ctx, variants=(("verif", "c04"), ("verif,unsafe", "c04u"))):
             broken.append({"kind": "obligation", "name": "driver c04 (%s) crashed" % tags, "detail": err[-1500:]})
         direct = [l for l in lines if "\t" in l and not l.startswith("spec ")]
         dis += ctx.correspond(direct, orc, "protocol codec (%s) <-> Model/Codec.lean" % tags)
+        # the generated Lean models of the Conn response readers (Gen/Legacy.lean T.readFrom, subject of read_write) on the
+        # same bodies: same bytes left, same re-encoding
+        if orcleg is not None:
+            leg = []
+            for l in lines:
+                if l.startswith("legread ") and "\t" in l:
+                    op, impl = l.split("\t", 1)
+                    w = op.split(" ")
+                    if len(w) == 5:
+                        leg.append("legmodel %s %s %s\t%s" % (w[2], w[3], w[4], impl))
+            dis += ctx.correspond(leg, orcleg, "Conn response readers (%s) <-> Gen/Legacy.lean readFrom models" % tags)
         # second direction: reference frames (Spec encoder, golden schema) decoded by the real code
         frames, ferr = codec.spec_frames(ctx, orc, lines)
         if frames is None:
